@@ -908,6 +908,11 @@ def check_none(ctx, R="C08.none"):
 
 
 def check(ctx):
+    # pruning erodes containers / bounds distances by the support intervals of sizes and offsets: an interval that excludes an
+    # attainable value prunes feasible scenes away (rule shared with C05, reported here as C08.support)
+    from .c05 import check_support
+
+    ctx.run(check_support, R="C08.support")
     ctx.run(check_sources)
     ctx.run(check_cmpops)
     ctx.run(check_polarity)
